@@ -92,7 +92,8 @@ def quiet_logging():
         return None
     for cls in (LS.SocketLogger,):
         for name in ('send', 'recv', 'accept', 'connect', 'encrypt',
-                     'shutdown', 'close', 'error'):
+                     'shutdown', 'close', 'error', 'proxyproto_success',
+                     'proxyproto_invalid', 'proxyproto_local'):
             setattr(cls, name, nop)
     try:
         import slimta.logging.queuestorage as LQ
